@@ -26,7 +26,16 @@ FILE_B, _ = spec.serialize([
     ['file', None], ['meta', {'path': 'h', 'l': [1, 2]}, None],
     ['diff', b'x\r\n', 'binary', None, 'dos'],
 ], 'utf-16')
-FILES = [FILE_A, FILE_B]
+# a foreign file whose content headers carry nothing but the length
+FILE_C = (b'#diffx: encoding=utf-8, version=1.0\n'
+          b'#.preamble: length=4\nabc\n'
+          b'#.meta: length=11\n{"a": "x"}\n'
+          b'#.change:\n#..preamble: length=2\nc\n'
+          b'#..file:\n#...meta: length=11\n{"p": "q"}\n'
+          b'#...diff: length=2\na\n'
+          b'#..file:\n#...meta: length=11\n{"p": "r"}\n'
+          b'#...diff: length=2\nb\n')
+FILES = [FILE_A, FILE_B, FILE_C]
 
 NSLOTS = 3
 
@@ -55,13 +64,14 @@ def ops_for(nslots):
     for i in range(nslots):
         ops += [
             ('new', i, None), ('new-attrs', i, None),
-            ('parse', i, 0), ('parse', i, 1),
+            ('parse', i, 0), ('parse', i, 1), ('parse', i, 2),
             ('add-change', i, None), ('add-change-attrs', i, None),
             ('add-file', i, None),
             ('mut-meta', i, None), ('mut-meta-nested', i, None),
             ('mut-options', i, None), ('mut-file-meta', i, None),
             ('mut-content-options', i, None),
             ('set-preamble', i, None), ('set-diff', i, None),
+            ('set-diff-type', i, None),
             ('stats', i, None),
             ('to-bytes', i, None), ('write-shared', i, None),
             ('repr', i, None), ('iterate', i, None),
@@ -87,7 +97,7 @@ def enabled(world, op):
         return world.trees[arg] is not None
     if name == 'add-file':
         return _last_change(t) is not None
-    if name in ('mut-file-meta', 'set-diff'):
+    if name in ('mut-file-meta', 'set-diff', 'set-diff-type'):
         return _last_file(t) is not None
     if name == 'mut-meta-nested':
         return isinstance(t.meta.get('k'), list)
@@ -131,6 +141,9 @@ def apply(world, op):
     elif name == 'set-diff':
         _last_file(t).diff = b'other\n'
         _last_file(t).diff_line_endings = 'unix'
+    elif name == 'set-diff-type':
+        _last_file(t).diff_type = 'binary'
+        _last_file(t).meta_format = 'json'
     elif name == 'stats':
         t.generate_stats()
     elif name == 'to-bytes':
@@ -217,12 +230,6 @@ def check_step(hist, op, g0):
                       'history %r' % (_s(obs[2]), _s(obs[1]), hist)))
         elif kind == 'repr' and obs[1] != obs[2]:
             v.append(('repr-unstable', ''))
-        elif kind == 'eq':
-            same = fsnap(w.trees[i]) == fsnap(w.trees[arg])
-            if obs[1] != same or obs[2] == obs[1]:
-                v.append(('eq-disagrees-with-snapshot',
-                          '== %r, != %r, snapshots equal %r\nhistory %r'
-                          % (obs[1], obs[2], same, hist)))
     if name == 'parse':
         # two parses of the same bytes are equal but share nothing
         t2 = w.reader.parse(io.BytesIO(FILES[arg]))
